@@ -2,6 +2,10 @@ package segs
 
 import (
 	"context"
+	"crypto"
+	"crypto/ecdsa"
+	"crypto/elliptic"
+	crand "crypto/rand"
 	"crypto/sha256"
 	"hash"
 	"math/rand"
@@ -13,6 +17,7 @@ import (
 	cryptopb "github.com/scionproto/scion/pkg/proto/crypto"
 	"github.com/scionproto/scion/pkg/scrypto"
 	"github.com/scionproto/scion/pkg/scrypto/cppki"
+	"github.com/scionproto/scion/pkg/scrypto/signed"
 	seg "github.com/scionproto/scion/pkg/segment"
 	"github.com/scionproto/scion/pkg/segment/extensions/discovery"
 	"github.com/scionproto/scion/private/topology"
@@ -167,3 +172,30 @@ func (t *Topo) Run(ts time.Time, rng *rand.Rand, maxLen int,
 	}
 	return out, err
 }
+
+// KeySigner signs with one throw-away P-256 key and produces well-formed signed messages (so that
+// segments survive a protobuf / path-DB round trip). Nothing verifies these signatures.
+type KeySigner struct {
+	Key crypto.Signer
+	V   cppki.Validity
+}
+
+// NewKeySigner creates a KeySigner with a fresh key.
+func NewKeySigner() KeySigner {
+	k, err := ecdsa.GenerateKey(elliptic.P256(), crand.Reader)
+	if err != nil {
+		panic(err)
+	}
+	return KeySigner{Key: k, V: AlwaysValid()}
+}
+
+func (s KeySigner) Sign(_ context.Context, msg []byte, ad ...[]byte) (*cryptopb.SignedMessage, error) {
+	n := 0
+	for _, a := range ad {
+		n += len(a)
+	}
+	return signed.Sign(signed.Header{SignatureAlgorithm: signed.ECDSAWithSHA256, Timestamp: time.Now(),
+		AssociatedDataLength: n}, msg, s.Key, ad...)
+}
+
+func (s KeySigner) Validity() cppki.Validity { return s.V }
